@@ -114,8 +114,10 @@ def run(prop, tier):
     rid = 0
     K = 7
     nper = 6 if thorough else 2
-    for w in W1 + W2:
-        for rep in range(nper):
+    W3 = WD.catalogue_traceonly(tier)  # weekly / daily steps with durations of hundreds of steps: the saved state has to survive the 16 digits of a spreadsheet
+    cov["worlds_paired_only"] = [w["id"] for w in W3]
+    for w in W1 + W2 + W3:
+        for rep in (range(nper) if w not in W3 else [1, 3][: 2 if thorough else 1]):
             dt = float(w["dt"])
             S = at.ProjectSettings(2000, 2000 + K * dt, dt)
             # parameters: constant in time (even repetitions) or drifting linearly between two values of the grid (odd repetitions)
